@@ -1,11 +1,17 @@
 #!/bin/sh
-# trymutant.sh <patch> <PROP> [tier] : apply a seeded patch to /repo, run the check, always revert.
+# trymutant.sh <patch> <PROP> [tier] : apply a seeded patch to a scratch worktree of /repo HEAD (under /tmp/wt),
+# run the property's check against it (VERIF_REPO), remove the worktree.  /repo itself is not touched.
 patch=$1; prop=$2; tier=${3:-quick}
-cd /repo || exit 3
-if ! git diff --quiet; then echo "repo dirty"; exit 3; fi
-git apply "$patch" 2>/dev/null || git apply --3way "$patch" 2>/dev/null || patch -p1 -s --fuzz=3 < "$patch" >/dev/null 2>&1 || { git checkout -- . ; git clean -fdq -- src; echo "patch does not apply"; exit 3; }
-git reset -q
+wt=/tmp/wt/mut_$$
+git -C /repo worktree add --detach "$wt" HEAD >/dev/null 2>&1 || exit 3
+cp /repo/src/fandango/language/parser/sa_fandango_cpp_parser.so "$wt/src/fandango/language/parser/" 2>/dev/null
+cd "$wt"
+if git apply "$patch" 2>/dev/null || git apply --3way "$patch" 2>/dev/null || patch -p1 -s --fuzz=3 < "$patch" >/dev/null 2>&1; then
+  cd /verif
+  VERIF_REPO="$wt" VERIF_EVIDENCE_DIR="$wt/.evidence" ./check "$prop" --tier "$tier" 2>&1 | grep -E "VIOLATION|KNOWN|HARNESS|seed=" | cut -c1-200 | head -8
+else
+  echo "patch does not apply"
+fi
 cd /verif
-./check "$prop" --tier "$tier" 2>&1 | grep -E "VIOLATION|KNOWN|HARNESS|seed=" | head -8
-rc=$?
-git -C /repo checkout -- . ; git -C /repo clean -fdq -- src
+git -C /repo worktree remove --force "$wt" >/dev/null 2>&1
+git -C /repo worktree prune
